@@ -480,6 +480,13 @@ class Executor(object):
                 raise OutOfReach('None used as sort %s' % code)
             elif isinstance(v, type) and v.__name__ in self.world.class_ids:
                 t, own = z3.IntVal(-self.world.cid(v.__name__)), 'R'   # class objects: negative pseudo-addresses
+            elif type(v).__name__ == 'function':
+                # module-level function objects stored in data (factory tables): pseudo-addresses below -1000
+                fids = self.world.__dict__.setdefault('fun_ids', {})
+                key = '%s:%s' % (getattr(v, '__module__', '?'), getattr(v, '__qualname__', repr(v)))
+                if key not in fids:
+                    fids[key] = len(fids) + 1
+                t, own = z3.IntVal(-(1000 + fids[key])), 'R'
             else:
                 raise OutOfReach('python object %r has no term' % (v,))
         else:
